@@ -117,7 +117,27 @@ def progs():
         return r
 
     faulty.expected_exc = (InjectedFault,)
-    return {'fire_and_forget': fire_and_forget, 'barriers': barriers, 'nested': nested, 'early': early, 'faulty': faulty}
+
+    async def cancelled(mpc):
+        """the caller gives up on a result (cancels the placeholder, as asyncio.wait_for does on a timeout) while the MPyC
+        coroutine is still running; when it finishes, copying its result into the cancelled placeholder fails inside the
+        done-callback; barriers and shutdown must still work"""
+        secint = mpc.SecInt(16)
+        x = mpc.input(secint(mpc.pid + 2))
+        f = mpc.transfer(('obj', mpc.pid), senders=0)      # placeholder Future of a running coroutine
+        g = mpc.output(x[0] * x[-1])
+        f.cancel()
+        g.cancel()
+        await mpc.barrier('after-cancel')
+        y = x[0] * x[0]                                     # one more coroutine in flight
+        await mpc.barrier('B')
+        w = x[-1] * y                                       # pending at shutdown
+        r = await mpc.output(x[0])
+        return r
+
+    cancelled.expected_exc = (asyncio.InvalidStateError,)
+    return {'fire_and_forget': fire_and_forget, 'barriers': barriers, 'nested': nested, 'early': early, 'faulty': faulty,
+            'cancelled': cancelled}
 
 
 class Monitor:
